@@ -184,6 +184,7 @@ func (t *Table) ColIdx(name string) int {
 }
 
 type DB struct {
+	dry    bool // UpdateVerdict in progress: validate, do not commit
 	Tables map[string]*Table
 	Order  []string // creation order
 	seq    int
@@ -434,6 +435,16 @@ func (t *Table) rowResolver(r *Row) Resolver {
 
 // Apply executes the statement on the model. It returns the reason the
 // statement must be refused (and leaves the model untouched), or OK.
+// UpdateVerdict is what Apply would answer for an UPDATE, without applying it.
+func (d *DB) UpdateVerdict(s Stmt) (ErrKind, error) {
+	if s.Kind != "update" {
+		return "", fmt.Errorf("model: UpdateVerdict of a %s statement", s.Kind)
+	}
+	d.dry = true
+	defer func() { d.dry = false }()
+	return d.Apply(s)
+}
+
 func (d *DB) Apply(s Stmt) (ErrKind, error) {
 	switch s.Kind {
 	case "create":
@@ -532,6 +543,9 @@ func (d *DB) Apply(s Stmt) (ErrKind, error) {
 				return ErrRowTooLarge, nil
 			}
 			changes = append(changes, change{r, vals})
+		}
+		if d.dry {
+			return OK, nil
 		}
 		for _, c := range changes {
 			c.r.Vals = c.vals
